@@ -682,7 +682,8 @@ def work_sep(task, res: Result):
                 _sep_violation(res, f"is_separable = {out2} on the {vname} image of a certified NPT state", inst2, "list", out2, branch2, exc2, {"model": False, "theorem": "negative_rayleigh_not_separable"})
             elif out2 != base_out and not inst.get("sep"):
                 _sep_violation(res, f"is_separable verdict not invariant under {vname}: {base_out} ({base_branch}) vs {out2} ({branch2})", inst2, "list", [base_out, out2], branch2, exc2,
-                               {"model": "equal", "base_branch": base_branch, "theorem": "sep_local_unitary_iff / sep_swap_closed"})
+                               {"model": "equal", "kind": "invariance", "pair": [[base_out, base_branch], [out2, branch2]], "base_branch": base_branch, "base_rho": rho, "base_dims": [dA, dB],
+                                "theorem": "sep_local_unitary_iff / sep_swap_closed"})
 
 
 def work_ball(task, res: Result):
@@ -780,9 +781,22 @@ def install_matchers(ctx):
 
     ctx.matchers["c15-symext-sdp-constant-false"] = lambda info: (
         info.get("function") == "has_symmetric_extension" and info.get("separable_by_construction") is True and info.get("branch") == "sdp" and info.get("impl") is False)
-    ctx.matchers["c15-is-separable-late-stage"] = lambda info: (
-        info.get("function") == "is_separable" and info.get("separable_by_construction") is True and info.get("early_criteria_hold") == []
-        and ((info.get("impl") is False and info.get("branch") == "symext-final-false") or (info.get("branch") == "breuer-hall" and exc_is(info, "TypeError"))))
+    SUFFICIENT = {"ball", "rank1-perturbation", "op-schmidt-rank", "2xn-spectrum", "2xn-hankel", "2xn-homothetic", "2xn-lemma1", "rank4-3x3", "ppt-sufficient"}
+
+    def late(v):
+        return (v[0] is False and v[1] == "symext-final-false") or (v[0] == "raise:TypeError" and v[1] == "breuer-hall")
+
+    def late_stage(info):
+        if info.get("function") != "is_separable":
+            return False
+        if info.get("kind") == "invariance":
+            # one member accepted by a sound sufficient criterion (so the state and its image are separable), the other decided by the late stage
+            p = info.get("pair") or []
+            return len(p) == 2 and any(p[i][0] is True and p[i][1] in SUFFICIENT and late(p[1 - i]) for i in (0, 1))
+        return (info.get("separable_by_construction") is True and info.get("early_criteria_hold") == []
+                and late((info.get("impl"), info.get("branch"))) and (info.get("impl") is False or exc_is(info, "TypeError")))
+
+    ctx.matchers["c15-is-separable-late-stage"] = late_stage
 
 # ------------------------------------------------------------------------------------------------
 # run
@@ -969,6 +983,16 @@ def replay(ctx, rec):
     if fn in ("is_ppt", "is_npt"):
         inst = {"family": a.get("family", "replay"), "dA": a["dA"], "dB": a["dB"], "rho": _arr(a["rho"]), "sep": None, "terms": None, "cplx": True, "meta": a.get("meta")}
         work_ppt({"inst": inst, "calls": [(a["sys"], a["dim_form"], a["tol"])], "model_ok": True}, res)
+    elif fn == "is_separable" and rec.get("kind") == "invariance":
+        warnings.filterwarnings("ignore")
+        b0, d0 = _arr(rec["base_rho"]), rec["base_dims"]
+        o1, br1, _ = observed_call("is_separable", b0, list(d0))
+        o2, br2, e2 = observed_call("is_separable", _arr(a["rho"]), [a["dA"], a["dB"]])
+        res.case({"fn": "is_separable/replay-invariance", "rho": digest(b0)}, True, "invariance/replay")
+        if o1 != o2:
+            res.violation(f"is_separable verdict not invariant under {a.get('variant')}: {o1} ({br1}) vs {o2} ({br2})",
+                          {"function": "is_separable", "kind": "invariance", "pair": [[o1, br1], [o2, br2]], "args": a, "impl": [o1, o2], "branch": br2, "exception": e2,
+                           "base_rho": b0, "base_dims": d0, "dA": a["dA"], "dB": a["dB"], "model": "equal", "theorem": "sep_local_unitary_iff / sep_swap_closed"})
     elif fn == "is_separable":
         inst = {"family": a.get("family", "replay"), "dA": a["dA"], "dB": a["dB"], "rho": _arr(a["rho"]), "sep": rec.get("separable_by_construction"), "terms": None, "cplx": True,
                 "k": a.get("k"), "meta": a.get("meta")}
